@@ -131,6 +131,8 @@ func runC11(c *Ctx) {
 	c.Rule("C11.O6", "E4", "every function that touches Parser.bytesCached tests state == stateClose first, under Parser.mux", 2)
 	c.Rule("C11.O7", "E2,E4", "write queue: each entry released once — on flush's completion edge before the pop, or by teardown's loop followed by dropping the list; releaseToWrite closes the queued descriptor too", 3)
 	c.Rule("C11.O8", "E2-summaries", "views handed to BodyReader.append / websocket.Conn.Parse / processors' OnBody are only measured, copied or re-sliced", 3)
+	c.Rule("C11.O9", "E4", "a pooled buffer is never re-sliced from the front in place (*p = (*p)[k:]): its capacity would no longer be the one the allocator handed out, and a size-class allocator files it under the wrong class on Free", 1)
+	c11NoFrontReslice(c, "C11.O9")
 
 	cfg := c.tsConfig()
 	ts := eng.NewTypestate(cfg)
@@ -425,4 +427,42 @@ func (c *Ctx) viewEscapes(fn *ssa.Function, pd *ssa.Parameter) string {
 	}
 	visit(pd, 0)
 	return bad
+}
+
+// c11NoFrontReslice: O9.
+func c11NoFrontReslice(c *Ctx, ob string) {
+	bad := ""
+	n := 0
+	for _, f := range c.pkgFuncs("nbio", "nbhttp", "websocket") {
+		for _, b := range f.Blocks {
+			for _, in := range b.Instrs {
+				st, ok := in.(*ssa.Store)
+				if !ok || st.Addr.Type().String() != "*[]byte" {
+					continue
+				}
+				sl, ok := st.Val.(*ssa.Slice)
+				if !ok {
+					continue
+				}
+				a, isLoad := ir.IsLoad(sl.X)
+				if !isLoad || (ir.Resolve(a) != ir.Resolve(st.Addr) && c.P.Desc(a) != c.P.Desc(st.Addr)) {
+					continue
+				}
+				n++
+				if sl.Low == nil {
+					continue
+				}
+				if k, isK := ir.ConstInt(sl.Low); isK && k == 0 {
+					continue
+				}
+				// only buffers that can come from an allocator: a pointer held in a field, a parameter,
+				// or a Malloc result (a local slice variable's own address is not pooled)
+				if al, isAlloc := ir.Root(st.Addr).(*ssa.Alloc); isAlloc && al.Comment != "" && !strings.HasPrefix(al.Type().String(), "**") {
+					continue
+				}
+				bad = c.P.FuncName(ir.Outermost(f)) + " re-slices a pooled buffer from the front in place at " + c.Pos(in) + " (" + c.P.Desc(st.Val) + "): the capacity shrinks, and mempool's size-class allocator files the buffer under a class larger than its capacity when it is freed, so a later Malloc panics"
+			}
+		}
+	}
+	c.Cond(bad == "", ob, "no in-place front re-slice of pooled buffers", "", fmt.Sprintf("%d in-place re-slices, all from offset 0", n), bad)
 }
